@@ -9,8 +9,8 @@ from sv import registry as R
 from sv.props import c01
 
 PROPERTY = "C03"
-GEN = ["Frames"]
-PROPS = ["ScoresVerif/Props/C03.lean", "ScoresVerif/Props/C03Frames.lean"]
+GEN = ["Frames", "Point"]
+PROPS = ["ScoresVerif/Props/C03.lean", "ScoresVerif/Props/C03Frames.lean", "ScoresVerif/Props/C03Gen.lean", "ScoresVerif/Props/C03Arr.lean"]
 DRIVER_DEPS = ["ScoresVerif.Driver.C01"]
 LEVEL = "proof"
 TRUSTED = ["xarray broadcasting by dimension name as modelled by SV.Arr.zipWith (tied by the correspondence)"]
@@ -22,6 +22,12 @@ MANIFEST = dict(
     text="Lean theorems for lists of any length: unit weights are the identity, preserve-all with weights is w times the "
          "unweighted value, the NaN-skipping mean of weighted per-case scores is additive in the weights and homogeneous in a "
          "constant factor, and a positive constant weight cancels in every sum ratio including all zero-denominator cases. "
+         "With NaN weights: the mean runs over exactly the cases having both a score and a weight (a zero weight stays in the "
+         "denominator), additivity holds for equal NaN masks and provably fails otherwise, homogeneity always. The same laws are "
+         "stated on the regenerated apply_weights helper (Gen/Point: it is the plain product, nothing else), and on labelled "
+         "arrays with weights broadcast by name: product at the same label before the mean, a weight without a reduced dim "
+         "factors out when finite non-zero (any finite weight for finite per-case values; not for 0 x inf), additivity and "
+         "homogeneity for weights on any dims, unit weights are the identity. "
          "Every weight-accepting public score is tied to that form by comparing it with the Lean evaluation of "
          "nan-mean over R of (its own unweighted pointwise output x weights, broadcast by name), and the laws are also checked "
          "directly as relations between implementation runs (w1+w2, c*w, unit weights, ratio invariance).",
